@@ -4,7 +4,7 @@
 From Coq Require Import List NArith ZArith Bool Lia Sorted.
 From YV Require Import Gen.PatConsts Pat.Syntax Pat.Sem Pat.Matcher Pat.MatcherProofs
   Pat.Modifiers Pat.ModifiersProofs Pat.MatchList Pat.MatchListProofs
-  Pat.C01Check Pat.C01CheckProofs.
+  Pat.C01Check Pat.C01CheckProofs Pat.Base64 Pat.Chain Pat.ChainProofs.
 Import ListNotations.
 
 (* ---- R |= S : the reference matcher ------------------------------------ *)
@@ -159,3 +159,36 @@ Theorem pattern_matches_always_sorted : forall mx ops,
 Proof. exact pm_run_sorted. Qed.
 Print Assumptions pattern_matches_always_sorted.
 
+
+(* ---- base64 and chaining ------------------------------------------------ *)
+Theorem base64_decode_encode : forall a x, alphabet_ok a -> bytes_ok x ->
+  b64_decode a (b64_encode a x) = Some x.
+Proof. exact b64_decode_encode. Qed.
+Print Assumptions base64_decode_encode.
+
+(* data containing the encoding of x ++ text ++ y (|x| <= 2, whole 3-byte groups)
+   is a genuine base64 occurrence at the computed offset *)
+Theorem base64_occurrence_is_genuine : forall a x t y pre post d,
+  alphabet_ok a -> bytes_ok (x ++ t ++ y) ->
+  (length x <= 2)%nat -> (length y <= 2)%nat -> t <> [] ->
+  ((length x + length t + length y) mod 3 = 0)%nat ->
+  d = pre ++ b64_encode a (x ++ t ++ y) ++ post ->
+  b64_occ_at a false t (length x) (length y) d
+             (length pre + core_start (length x)) (core_len (length x) (length t)) = true.
+Proof. exact b64_occurrence_genuine. Qed.
+Print Assumptions base64_occurrence_is_genuine.
+
+(* split_at_large_gaps (model of re/hir.rs, threshold from the source) keeps the
+   language, unless the pattern ends with a jump over the threshold: then the
+   trailing jump is lost (refuted, witness /abc.{5,300}/s on "abc") *)
+Theorem split_at_large_gaps_preserves_language : forall nc d items,
+  items <> [] -> ends_with_big_gap items = false ->
+  forall i j, M nc d (join_chain (split_at_large_gaps items)) i j <-> M nc d (rcat items) i j.
+Proof. exact split_preserves_language. Qed.
+Print Assumptions split_at_large_gaps_preserves_language.
+
+Theorem split_at_large_gaps_trailing_gap_refuted :
+  exists nc d items i j,
+    M nc d (join_chain (split_at_large_gaps items)) i j /\ ~ M nc d (rcat items) i j.
+Proof. exact split_preserves_language_refuted. Qed.
+Print Assumptions split_at_large_gaps_trailing_gap_refuted.
